@@ -95,3 +95,11 @@ check("C16", "exploration", "interleaved multi-store history monitor with per-st
       "Groups of 4 stores filled from different seeded cases that share every name are queried store by store (Check, ListObjects, Read, ReadChanges, models, assertions, foreign model ids) before and after writes to single stores and after deleting one store; every answer must match the reference / the driver's record for that store alone, deleted stores must vanish from GetStore and ListStores.",
       "After a store is written its default-consistency cached answers are not judged (staleness is C10/C11's subject); changelog multiplicity is C14/C15's subject.",
       "DESIGN.md §5 C16")
+check("C20", "exploration", "termination watchdog (deadline + slack, confirmed in isolation) + goroutine census by stack signature and iterator open/stop balance at quiescence over an observing datastore; -race",
+      "Check, BatchCheck, ListObjects, StreamedListObjects, ListUsers and Expand run on tuple cycles of length 50, fan-out 300/1000 and seeded generated cases with client deadlines 5-200 ms, client cancellation, and injected datastore latency, on v1 / weighted-graph / classic / pipeline / optimized engines with and without iterator caches; every call must return before deadline + 5 s (an overrun must reproduce 3x), and at quiescence after each batch no goroutine with openfga frames beyond the pre-batch census may remain and every opened tuple iterator must have been stopped.",
+      "Wall-clock only in watchdogs; goroutine identity = first three openfga frames; bounded restatement of 'no hang' (finite runs).",
+      "DESIGN.md §5 C20")
+check("C21", "exploration", "online trace monitor over cycle-group hook events with seeded yield injection at the group's suspension points; termination watchdog confirmed by goroutine dump; output vs reference set; -race",
+      "ListObjects runs on the streaming pipeline (4 tunings) over directed models with cycle groups of 1-4 members (recursive userset / TTU chains of length 3-14 closed into tuple cycles, mutual recursion, mixed cycles) and generated cases, repeated under seeded yields; per status pool the monitor checks: in-flight count never negative, reaches zero at most once, never incremented from zero after the first join, quiescence latch only after every member signalled ready, no cleanup before quiescence, every member cleans up exactly once; the request must return and its output must equal the reference set. Evidence reports distinct event-order signatures observed; interleavings are sampled, not enumerated.",
+      "Invariants chosen to be sound under the hooks' emission points; hang = no return 25 s after the 5 s deadline AND goroutines parked in the cycle wait / DrainSender in the dump.",
+      "DESIGN.md §5 C21")
